@@ -117,6 +117,9 @@ Proof.
     unfold sections_of, sec_locks; cbn [req_key map s_key]; unfold exclusive; cbn [s_write orb]; reflexivity.
 Qed.
 
+Lemma map_snd_enum {A} : forall (l : list A) off, map snd (combine (seq off (length l)) l) = l.
+Proof. induction l as [|a l IH]; intros off; [reflexivity|]. cbn [length seq combine map snd]. f_equal. apply IH. Qed.
+
 (* get / gete of k1..kn: n sections in the order of the keys, the i-th on the lock of ki, shared
    in multi-reader mode and exclusive otherwise, its body the wrapped orchestrator's program for
    the single-key sub-request *)
@@ -136,12 +139,10 @@ Proof.
   { pose proof (sections_follow_plan now k r) as P. subst r.
     destruct gete;
       cbn [method_of locked_model per_key_read shape_plan req_gets mode_write option_map] in P;
-      cbv iota; injection P as P; rewrite <- P; unfold plan_sections; rewrite map_map; reflexivity. }
+      cbv iota; injection P as P; unfold sections_of; rewrite <- P; unfold plan_sections; rewrite map_map; reflexivity. }
   assert (Hk : map fst (sub_gets gete items no ne) = map gi_key items).
   { unfold sub_gets, enumerate. rewrite map_map. cbn [fst].
-    rewrite <- (map_map snd gi_key). f_equal.
-    generalize 0%nat. induction items as [|it rest IH]; intros off; [reflexivity|].
-    cbn [length seq combine map snd]. f_equal. apply IH. }
+    rewrite <- (map_map snd gi_key). f_equal. apply map_snd_enum. }
   split; [subst r; destruct gete; reflexivity|].
   rewrite Hs. unfold sec_locks. rewrite !map_map. cbn [s_key s_write s_prog].
   unfold exclusive. cbn [s_write orb].
